@@ -58,7 +58,12 @@ func (packer *MessagePacker) ChunkAndWrite(writer io.Writer, csid int, typeid ui
 	if bodyLen <= LocalChunkSize {
 		// 如果一个chunk就够放（大部分信令都是这种情况），我们直接在buffer前面预留的空间写入chunk header内容，避免造成拷贝
 		writeSingleChunkHeader(packer.b.Bytes(), csid, bodyLen, typeid, streamid)
-		_, err := packer.b.WriteTo(writer)
+		// 注意，writer可能是异步发送的connection（只是把切片放入发送队列），而packer.b会被下一条信令复用，
+		// 所以这里交给writer的必须是一份拷贝
+		out := make([]byte, packer.b.Len())
+		copy(out, packer.b.Bytes())
+		packer.b.Reset()
+		_, err := writer.Write(out)
 		return err
 	}
 
